@@ -589,6 +589,28 @@ def assemble(unit, workdir, vacuity_twins=False):
         emit("//@@ end of extracted fn")
         A.fn_ranges.append((start, end, fq, {"file": item["file"], "line": item["line"], "end_line": item.get("end_line"),
                                                     "props": ex["opts"].get("props", "").split(",") if ex["opts"].get("props") else meta["props"]}))
+        # vacuity twin (thorough tier, HQ_VACUITY=1): same signature and `requires`, body `assert(false)`.
+        # It must FAIL; if it verifies, the precondition is contradictory and everything proved under it is void.
+        if os.environ.get("HQ_VACUITY") == "1":
+            clines = ex["contract"]
+            req_i = [i for i, l in enumerate(clines) if l.strip().startswith("requires")]
+            if req_i:
+                ens_i = [i for i, l in enumerate(clines) if l.strip().startswith("ensures") and i > req_i[0]]
+                req_txt = "\n".join(clines[req_i[0]:(ens_i[0] if ens_i else len(clines))]).rstrip()
+                if re.sub(r"//.*", "", req_txt).replace("requires", "").strip():
+                    vsig = re.sub(r"\bfn\s+(\w+)", lambda m: "fn " + m.group(1) + "__vac", sig, count=1)
+                    emit(f"// ---- extracted fn {fq}__vac from {src} (vacuity twin)")
+                    if hdr:
+                        emit(hdr + " {")
+                    vstart = cur_line()
+                    emit(vsig)
+                    emit(req_txt)
+                    emit("{ proof { assert(false); } hq_panic() }")
+                    vend = cur_line() - 1
+                    if hdr:
+                        emit("}")
+                    emit("//@@ end of extracted fn")
+                    A.fn_ranges.append((vstart, vend, fq + "__vac", {"file": item["file"], "line": item["line"], "end_line": item.get("end_line"), "props": ["vacuity"]}))
         for ap in item.get("applied") or []:
             A.applied.append({"fn": fq, **ap})
         for ps in item.get("panic_sites") or []:
